@@ -1,4 +1,4 @@
-CONSTANTS Alphabet = {"(", ")", "|", ";", " ", "\n", "1", ".", "-", "e", "a"} MaxLen = 4
+CONSTANTS Alphabet <- SmallAlphabet MaxLen = 4
 SPECIFICATION Spec
 INVARIANT MachineIsFunction
 INVARIANT NoInvention
